@@ -1,5 +1,26 @@
-//! Conformance harness for property C07, see /verif/DESIGN.md.
+//! Conformance harness for property C07 (quoting round trip and state
+//! listings), see /verif/DESIGN.md section 6 and spec/Quote.tla,
+//! spec/ShellState.tla.
+mod quote;
+mod state;
+
 fn main() {
-    eprintln!("yv-c07: not implemented yet");
-    std::process::exit(2);
+    let args: Vec<String> = std::env::args().collect();
+    if args.len() < 2 {
+        eprintln!("usage: yv-c07 <quote|quote-random|quote-redo|state|state-random|state-redo> ...");
+        std::process::exit(2);
+    }
+    yvcommon::util::quiet_panics();
+    let rest = &args[2..];
+    let code = match args[1].as_str() {
+        "quote" => quote::enumerated(rest),
+        "quote-random" => quote::random(rest),
+        "state" => state::replay(rest),
+        "state-random" => state::random(rest),
+        other => {
+            eprintln!("unknown subcommand {other}");
+            2
+        }
+    };
+    std::process::exit(code);
 }
